@@ -1524,20 +1524,14 @@ void caseHmm(vrt::Case& c)
 }
 
 // ------------------------------------------------------------------ group dirichlet
-void caseDirichlet(vrt::Case& c)
+// One Dirichlet object judged: continuous draws on the simplex with Beta marginals, discrete draws on the simplex.
+// `tag` is appended to the structural classes ("" for the bulk grid).  Returns false when the constructor refused.
+bool judgeDirichlet(const vector<size_t>& vn, const Vdouble& alpha, u32 seed, const string& what, const string& tag)
 {
-  size_t dim = static_cast<size_t>(c.rng.range(2, 4));
-  vector<size_t> vn(dim - 1);
-  Vdouble alpha(dim);
-  for (auto& x : vn) x = static_cast<size_t>(c.rng.range(1, 3));
-  // alpha >= 0.5: below, the Beta components narrow their domain by their precision, which moves visible mass (see dist-randC Beta)
-  for (auto& a : alpha) { do a = gridParam(c.rng); while (a < 0.5); }
-  u32 seed = libSeed(c);
-  string what = "DirichletDiscreteDistribution(classes " + vrt::vecStr(vn) + ", alpha " + vrt::vecStr(alpha) + ")";
-  vrt::describe("Dirichlet", what + " seed " + str(seed));
+  size_t dim = alpha.size();
   unique_ptr<DirichletDiscreteDistribution> d;
   vrt::Outcome oc = vrt::capture([&] { d.reset(new DirichletDiscreteDistribution(vn, alpha)); });
-  if (!oc.returned()) { vrt::tally("dirichlet-ctor-refused"); return; }
+  if (!oc.returned()) { vrt::tally("dirichlet-ctor-refused"); return false; }
   const size_t N = 20000;
   vector<vector<double>> comp(dim, vector<double>(N));
   RandomTools::setSeed(seed);
@@ -1550,13 +1544,13 @@ void caseDirichlet(vrt::Case& c)
     for (size_t i = 0; ok && i < dim; ++i) { ok = v[i] >= -1e-12 && v[i] <= 1 + 1e-12; s += v[i]; comp[i][k] = min(1.0, max(0.0, v[i])); }
     if (!ok || std::fabs(s - 1) > 1e-9) ++badShape;
   }
-  if (!vrt::expect(badShape == 0, "dirichlet.on-simplex", "randC", [&] { return what + ": " + str(badShape) + " continuous draws are not points of the simplex"; })) return;
+  if (!vrt::expect(badShape == 0, "dirichlet.on-simplex", "randC" + tag, [&] { return what + ": " + str(badShape) + " continuous draws are not points of the simplex"; })) return true;
   double A = 0;
   for (double a : alpha) A += a;
   for (size_t i = 0; i < dim; ++i)
   {
     double ai = alpha[i], bi = A - alpha[i];
-    judgeLaw("Dirichlet::randC:marginal", what + " component " + str(i) + " against pBeta(x, alpha_i, sum of the others)", seed, comp[i], 0, 1,
+    judgeLaw("Dirichlet::randC:marginal" + tag, what + " component " + str(i) + " against pBeta(x, alpha_i, sum of the others)", seed, comp[i], 0, 1,
         [&](double x) { return x <= 0 ? 0. : x >= 1 ? 1. : RandomTools::pBeta(x, ai, bi); });
   }
   size_t badD = 0;
@@ -1568,8 +1562,257 @@ void caseDirichlet(vrt::Case& c)
     for (size_t i = 0; ok && i < dim; ++i) { ok = v[i] >= -1e-12 && v[i] <= 1 + 1e-12; s += v[i]; }
     if (!ok || std::fabs(s - 1) > 1e-9) ++badD;
   }
-  vrt::expect(badD == 0, "dirichlet.on-simplex", "rand", [&] { return what + ": " + str(badD) + " discrete draws are not points of the simplex"; });
+  vrt::expect(badD == 0, "dirichlet.on-simplex", "rand" + tag, [&] { return what + ": " + str(badD) + " discrete draws are not points of the simplex"; });
+  return true;
+}
+
+void caseDirichlet(vrt::Case& c)
+{
+  size_t dim = static_cast<size_t>(c.rng.range(2, 4));
+  vector<size_t> vn(dim - 1);
+  Vdouble alpha(dim);
+  for (auto& x : vn) x = static_cast<size_t>(c.rng.range(1, 3));
+  // alpha >= 0.5: below, the Beta components narrow their domain by their precision, which moves visible mass (see dist-randC Beta)
+  for (auto& a : alpha) { do a = gridParam(c.rng); while (a < 0.5); }
+  u32 seed = libSeed(c);
+  string what = "DirichletDiscreteDistribution(classes " + vrt::vecStr(vn) + ", alpha " + vrt::vecStr(alpha) + ")";
+  vrt::describe("Dirichlet", what + " seed " + str(seed));
+  if (!judgeDirichlet(vn, alpha, seed, what, "")) return;
   vrt::cover("dirichlet:dim" + str(dim));
+}
+
+// ------------------------------------------------------------------ group unit-param (arguments exactly equal to 1)
+// The bulk grid keeps away from (0.8,1.25): at 1 a mean and a rate, a variance and a deviation coincide, so a convention
+// error is invisible there.  The value 1 itself is inside the stated quantifier (means/rates/shapes 0.1..20) and the law is
+// fully determined there too; it is also the value at which samplers have closed forms and shortcuts of their own (Beta(1,b),
+// Beta(a,1), Gamma(1,.) = exponential, unit variance, the unit interval).  Every continuous sampler and every family's
+// randC/rand is therefore run with each of its mean/rate/shape/deviation arguments set to exactly 1: one at a time (the others
+// from the grid) and all together, through the constructor and through setParameterValue.  Same oracles as the bulk groups
+// (KS distance to the library's own cdf with the same parameters, class frequencies).
+string unitTag(int pattern, const char* first, const char* second)
+{
+  return pattern == 0 ? string(first) + "=1" : pattern == 1 ? string(second) + "=1" : string(first) + "=" + second + "=1";
+}
+
+const int UNIT_KINDS = 16;
+
+void caseUnitParam(vrt::Case& c)
+{
+  typedef RandomTools RT;
+  const size_t N = 20000;
+  const double inf = std::numeric_limits<double>::infinity();
+  int kind = static_cast<int>(c.index % UNIT_KINDS);
+  u64 rest = c.index / UNIT_KINDS;
+  int pattern = static_cast<int>(rest % 3);  // which argument is 1: the first, the second, both
+  bool update = (rest / 3) % 2 == 1;         // (families) parameters given to the constructor, or set afterwards
+  string route = update ? "updated" : "ctor";
+  u32 seed = libSeed(c);
+  double g1 = gridParam(c.rng), g2 = gridParam(c.rng);
+  double a = pattern == 1 ? g1 : 1., b = pattern == 0 ? g2 : 1.; // two-argument samplers: (a,b) = (1,g) / (g,1) / (1,1)
+  double a0 = gridParam(c.rng), b0 = gridParam(c.rng);           // values before the update
+  size_t n = static_cast<size_t>(c.rng.range(1, 8));
+  double mean = pattern == 0 ? 0. : pattern == 1 ? 1. : c.rng.real(-20, 20);
+  string meanTag = pattern == 0 ? ":mean=0" : pattern == 1 ? ":mean=1" : "";
+  vector<double> xs(N);
+  switch (kind)
+  {
+  case 0:
+  {
+    string w = "giveRandomNumberBetweenZeroAndEntry(1)";
+    vrt::describe("unit:uniform", w);
+    RT::setSeed(seed);
+    for (double& x : xs) x = RT::giveRandomNumberBetweenZeroAndEntry(1.0);
+    judgeLaw("RandomTools::giveRandomNumberBetweenZeroAndEntry:entry=1", w, seed, xs, 0, 1, [&](double x) { return x; });
+    vrt::cover("unit:uniform");
+    break;
+  }
+  case 1:
+  {
+    string w = "randGaussian(mean=" + str(mean) + ", variance=1) against pNorm(x, mean, 1)";
+    vrt::describe("unit:gaussian", w);
+    RT::setSeed(seed);
+    for (double& x : xs) x = RT::randGaussian(mean, 1.);
+    judgeLaw("RandomTools::randGaussian:variance=1", w, seed, xs, -inf, inf, [&](double x) { return RT::pNorm(x, mean, 1.); });
+    vrt::cover("unit:gaussian" + meanTag);
+    break;
+  }
+  case 2:
+  {
+    string w = "randExponential(mean=1) against 1-exp(-x)";
+    vrt::describe("unit:exponential", w);
+    RT::setSeed(seed);
+    for (double& x : xs) x = RT::randExponential(1.);
+    judgeLaw("RandomTools::randExponential:mean=1", w, seed, xs, 0, inf, [&](double x) { return 1 - std::exp(-x); });
+    vrt::cover("unit:exponential");
+    break;
+  }
+  case 3:
+  {
+    string w = "randGamma(alpha=1) against pGamma(x, 1, 1)";
+    vrt::describe("unit:gamma1", w);
+    RT::setSeed(seed);
+    for (double& x : xs) x = RT::randGamma(1.);
+    judgeLaw("RandomTools::randGamma(alpha):alpha=1", w, seed, xs, 0, inf, [&](double x) { return RT::pGamma(x, 1., 1.); });
+    vrt::cover("unit:gamma1");
+    break;
+  }
+  case 4:
+  {
+    string tag = unitTag(pattern, "alpha", "beta");
+    string w = "randGamma(alpha=" + str(a) + ", beta=" + str(b) + ") against pGamma(x, alpha, beta)";
+    vrt::describe("unit:gamma2:" + tag, w);
+    RT::setSeed(seed);
+    for (double& x : xs) x = RT::randGamma(a, b);
+    judgeLaw("RandomTools::randGamma(alpha,beta):" + tag, w, seed, xs, 0, inf, [&](double x) { return RT::pGamma(x, a, b); });
+    vrt::cover("unit:gamma2:" + tag);
+    break;
+  }
+  case 5:
+  {
+    string tag = unitTag(pattern, "alpha", "beta");
+    string w = "randBeta(alpha=" + str(a) + ", beta=" + str(b) + ") against pBeta(x, alpha, beta)";
+    vrt::describe("unit:beta:" + tag, w);
+    RT::setSeed(seed);
+    for (double& x : xs) x = RT::randBeta(a, b);
+    judgeLaw("RandomTools::randBeta:" + tag, w, seed, xs, 0, 1, [&](double x) { return x <= 0 ? 0. : x >= 1 ? 1. : RT::pBeta(x, a, b); });
+    vrt::cover("unit:beta:" + tag);
+    break;
+  }
+  case 6:
+  {
+    string tag = unitTag(pattern, "alpha", "beta");
+    string w = "GammaDiscreteDistribution(n=" + str(n) + ", alpha=" + str(a) + ", beta=" + str(b) + ") " + route;
+    vrt::describe("unit:Gamma:" + tag, w);
+    GammaDiscreteDistribution d(n, update ? a0 : a, update ? b0 : b);
+    if (update) { d.setParameterValue("alpha", a); d.setParameterValue("beta", b); }
+    judgeRandC("Gamma(" + tag + ")", route, w, seed, d, 0, inf);
+    vrt::cover("unit:randC:Gamma:" + tag + ":" + route);
+    break;
+  }
+  case 7:
+  {
+    string w = "GaussianDiscreteDistribution(n=" + str(n) + ", mu=" + str(mean) + ", sigma=1) " + route;
+    vrt::describe("unit:Gaussian", w);
+    GaussianDiscreteDistribution d(n, update ? 0.5 : mean, update ? a0 : 1.);
+    if (update) { d.setParameterValue("mu", mean); d.setParameterValue("sigma", 1.); }
+    judgeRandC("Gaussian(sigma=1)", route, w, seed, d, -inf, inf);
+    vrt::cover("unit:randC:Gaussian:" + route + meanTag);
+    break;
+  }
+  case 8:
+  {
+    string w = "ExponentialDiscreteDistribution(n=" + str(n) + ", lambda=1) " + route;
+    vrt::describe("unit:Exponential", w);
+    ExponentialDiscreteDistribution d(n, update ? a0 : 1.);
+    if (update) d.setParameterValue("lambda", 1.);
+    judgeRandC("Exponential(lambda=1)", route, w, seed, d, 0, inf);
+    vrt::cover("unit:randC:Exponential:" + route);
+    break;
+  }
+  case 9:
+  {
+    // lambda*tp in [0.2,4] as in the bulk group (acceptance probability of the rejection loop >= 0.18)
+    double lambda = 1., tp = 1.;
+    if (pattern == 0) tp = c.rng.real(0.2, 4);
+    else if (pattern == 1) lambda = c.rng.chance(0.5) ? c.rng.real(0.2, 0.8) : c.rng.real(1.25, 4);
+    string tag = unitTag(pattern, "lambda", "tp");
+    string w = "TruncatedExponentialDiscreteDistribution(n=" + str(n) + ", lambda=" + str(lambda) + ", tp=" + str(tp) + ") " + route;
+    vrt::describe("unit:TruncExponential:" + tag, w);
+    TruncatedExponentialDiscreteDistribution d(n, update ? a0 : lambda, update ? 1.0 / a0 : tp);
+    if (update) { d.setParameterValue("lambda", lambda); d.setParameterValue("tp", tp); }
+    judgeRandC("TruncExponential(" + tag + ")", route, w, seed, d, 0, tp);
+    vrt::cover("unit:randC:TruncExponential:" + tag + ":" + route);
+    break;
+  }
+  case 10:
+  {
+    string tag = unitTag(pattern, "alpha", "beta");
+    string w = "BetaDiscreteDistribution(n=" + str(n) + ", alpha=" + str(a) + ", beta=" + str(b) + ") " + route;
+    vrt::describe("unit:Beta:" + tag, w);
+    BetaDiscreteDistribution d(n, update ? a0 : a, update ? b0 : b);
+    if (update) { d.setParameterValue("alpha", a); d.setParameterValue("beta", b); }
+    judgeRandC("Beta(" + tag + ")", route, w, seed, d, 0, 1);
+    vrt::cover("unit:randC:Beta:" + tag + ":" + route);
+    break;
+  }
+  case 11:
+  {
+    // the unit interval itself, a unit-width interval elsewhere, the unit interval left of 0
+    double lo = pattern == 0 ? 0. : pattern == 1 ? c.rng.real(-20, 20) : -1., hi = lo + 1;
+    string tag = pattern == 0 ? "[0,1]" : pattern == 1 ? "width=1" : "[-1,0]";
+    string w = "UniformDiscreteDistribution(n=" + str(n) + ", " + str(lo) + ", " + str(hi) + ")";
+    vrt::describe("unit:Uniform:" + tag, w);
+    UniformDiscreteDistribution d(static_cast<unsigned int>(n), lo, hi);
+    judgeRandC("Uniform(" + tag + ")", "ctor", w, seed, d, lo, hi);
+    vrt::cover("unit:randC:Uniform:" + tag);
+    break;
+  }
+  case 12:
+  {
+    // Dirichlet (stick breaking: component j is a Beta(alpha_j, sum of the later alphas) draw): one alpha_j = 1 before the
+    // last position / the last alpha = 1 (second Beta shape of the last stick = 1) / all alphas = 1 (uniform on the simplex)
+    size_t dim = static_cast<size_t>(c.rng.range(2, 4));
+    vector<size_t> vn(dim - 1);
+    Vdouble alpha(dim);
+    for (auto& x : vn) x = static_cast<size_t>(c.rng.range(1, 3));
+    for (auto& x : alpha) { do x = gridParam(c.rng); while (x < 0.5); }
+    size_t at = pattern == 0 ? c.rng.below(dim - 1) : dim - 1;
+    if (pattern == 2) for (auto& x : alpha) x = 1.; else alpha[at] = 1.;
+    string tag = pattern == 0 ? "alpha_j=1" : pattern == 1 ? "alpha_last=1" : "all-alpha=1";
+    string what = "DirichletDiscreteDistribution(classes " + vrt::vecStr(vn) + ", alpha " + vrt::vecStr(alpha) + ")";
+    vrt::describe("unit:Dirichlet:" + tag, what + " seed " + str(seed));
+    if (!judgeDirichlet(vn, alpha, seed, what, ":" + tag)) break;
+    vrt::cover("unit:dirichlet:" + tag);
+    break;
+  }
+  case 13:
+  {
+    string tag = unitTag(pattern, "alpha", "beta");
+    size_t m = static_cast<size_t>(c.rng.range(1, 10));
+    string w = "GammaDiscreteDistribution(n=" + str(m) + ", alpha=" + str(a) + ", beta=" + str(b) + ") " + route;
+    vrt::describe("unit:Gamma.rand:" + tag, w);
+    GammaDiscreteDistribution d(m, update ? 2. : a, update ? 3. : b);
+    if (update) { d.setParameterValue("alpha", a); d.setParameterValue("beta", b); }
+    judgeRand("Gamma(" + tag + ")", w, seed, d);
+    vrt::cover("unit:rand:Gamma:" + tag + ":" + route);
+    break;
+  }
+  case 14:
+  {
+    string tag = unitTag(pattern, "alpha", "beta");
+    size_t m = static_cast<size_t>(c.rng.range(1, 10));
+    string w = "BetaDiscreteDistribution(n=" + str(m) + ", alpha=" + str(a) + ", beta=" + str(b) + ") " + route;
+    vrt::describe("unit:Beta.rand:" + tag, w);
+    BetaDiscreteDistribution d(m, update ? 2. : a, update ? 3. : b);
+    if (update) { d.setParameterValue("alpha", a); d.setParameterValue("beta", b); }
+    judgeRand("Beta(" + tag + ")", w, seed, d);
+    vrt::cover("unit:rand:Beta:" + tag + ":" + route);
+    break;
+  }
+  default:
+  {
+    size_t m = static_cast<size_t>(c.rng.range(1, 10));
+    if (pattern == 0)
+    {
+      string w = "ExponentialDiscreteDistribution(n=" + str(m) + ", lambda=1) " + route;
+      vrt::describe("unit:Exponential.rand", w);
+      ExponentialDiscreteDistribution d(m, update ? 2. : 1.);
+      if (update) d.setParameterValue("lambda", 1.);
+      judgeRand("Exponential(lambda=1)", w, seed, d);
+      vrt::cover("unit:rand:Exponential:" + route);
+    }
+    else
+    {
+      double mu = pattern == 1 ? 0. : c.rng.real(-20, 20);
+      string w = "GaussianDiscreteDistribution(n=" + str(m) + ", mu=" + str(mu) + ", sigma=1) " + route;
+      vrt::describe("unit:Gaussian.rand", w);
+      GaussianDiscreteDistribution d(m, update ? 0.5 : mu, update ? 2. : 1.);
+      if (update) { d.setParameterValue("mu", mu); d.setParameterValue("sigma", 1.); }
+      judgeRand("Gaussian(sigma=1)", w, seed, d);
+      vrt::cover("unit:rand:Gaussian:" + route);
+    }
+  }
+  }
 }
 } // namespace
 
@@ -1589,13 +1832,15 @@ int main(int argc, char** argv)
     { "ctest-pvalue", 3000, 300000, caseCtest, 600, false },
     { "hmm-sample", 120, 3000, caseHmm, 600, false },
     { "dirichlet", 48, 900, caseDirichlet, 600, false },
+    { "unit-param", 6 * UNIT_KINDS, 60 * UNIT_KINDS, caseUnitParam, 600, false },
   };
   vrt::Meta meta;
   meta.rule = "seed-repro: the run seed and 15 derived seeds, one fixed program of every sampler run twice after setSeed. cont-sampler / dist-randC / dist-rand / picks / hmm-sample / dirichlet: "
       "one case = one sampler at one parameter point (means/rates/shapes/variances from the grid 0.1..20 or log-uniform in it, never within (0.8,1.25) where conventions coincide; weight vectors of "
       "length 1..12 with zeros), the library generator seeded from the case stream, N=20000 draws. sample-exact / pick-exact: every (variant, source size 0..12, sample size 0..14), repeated draws, "
       "sources with and without repeated values. rcont2-exhaustive: every pair of margin vectors with 2..5 entries (zeros included) and equal total <= 12; rcont2-random: totals 13..200. "
-      "ctest-pvalue: random 2..5 x 2..5 tables of six shapes, chi-square and permutation p-values. A class key = (sampler, parameter region / size class / shape / route); all involve real draws.";
+      "ctest-pvalue: random 2..5 x 2..5 tables of six shapes, chi-square and permutation p-values. unit-param: every continuous sampler and every family's randC/rand with each mean/rate/shape/"
+      "deviation argument exactly 1 (one at a time with the others from the grid, and all together; constructor and setParameterValue routes). A class key = (sampler, parameter region / size class / shape / route); all involve real draws.";
   meta.assumptions = {
     "statistical clauses: error probability 1e-13 per comparison (Dvoretzky-Kiefer-Wolfowitz-Massart for the Kolmogorov-Smirnov distance, Bernstein/Freedman for frequencies); < 1e7 comparisons per run",
     "the library's own cdf (pNorm, pGamma, pBeta, pProb) is the reference for the same parameters, trusted to 2e-3 in cdf value; its accuracy is another property (a cdf returning values outside [0,1] at sampled points is tallied, not judged)",
